@@ -255,6 +255,35 @@ func (m Model) Adopt(st *State) {
 	}
 }
 
+// KindsDiffer reports whether the observed tree and the model disagree on paths or kinds.
+func (m Model) KindsDiffer(st *State) bool {
+	if len(st.Ents) != len(m) {
+		return true
+	}
+	for _, e := range st.Ents {
+		if n, ok := m[e.Path]; !ok || n.Dir != e.Dir {
+			return true
+		}
+	}
+	return false
+}
+
+// SyncKinds makes the model's paths and kinds those of the observed tree and keeps
+// the link membership the model has for names that are files in both.
+func (m Model) SyncKinds(st *State) {
+	old := m.Clone()
+	for k := range m {
+		delete(m, k)
+	}
+	for _, e := range st.Ents {
+		n := Node{Dir: e.Dir}
+		if o, ok := old[e.Path]; ok && !o.Dir && !e.Dir {
+			n.Link = o.Link
+		}
+		m[e.Path] = n
+	}
+}
+
 // String is the canonical text of the model.
 func (m Model) String() string {
 	keys := make([]string, 0, len(m))
